@@ -40,6 +40,8 @@ func typedOpProgs() []*Prog {
 			add(t+op+"const", []Param{{"a", t}}, t, fmt.Sprintf("\tx := a\n\tx = x %s 3\n\treturn x\n", op), "")
 			add(t+op+"assignop", []Param{{"a", t}, {"b", t}}, t, fmt.Sprintf("\tx := a\n\tx %s= b\n\tx %s= 100\n\treturn x\n", op, op), "")
 		}
+		add(t+"const-chain", []Param{{"a", t}, {"b", t}}, t, "\tx := a + 1 - 1\n\ty := b - 1 + 1\n\tx = x + 1 + 2\n\tif x > y {\n\t\ty = y + 100 + 100 - 1\n\t}\n\treturn x + y + 1 + 1\n", "")
+		add(t+"empty-bodies", []Param{{"a", t}, {"b", t}}, t, "\tx := a\n\tif a > b {\n\t}\n\tif a < b {\n\t} else {\n\t\tx++\n\t}\n\tfor i := 0; i < 2; i++ {\n\t}\n\tswitch {\n\tcase a == b:\n\tdefault:\n\t\tx += 2\n\t}\n\treturn x + b\n", "")
 		add(t+"incdec", []Param{{"a", t}}, t, "\tx := a\n\tx++\n\tx++\n\ty := x\n\ty--\n\treturn x + y\n", "")
 		add(t+"slice-elem", []Param{{"a", t}, {"b", t}}, t, fmt.Sprintf("\ts := []%s{a, b}\n\ts[0] = s[1] + 1\n\ts[1]++\n\ts[0] += 200\n\treturn s[0] + s[1]\n", t), "")
 		add(t+"field", []Param{{"a", t}, {"b", t}}, t, "\tp := &P{x: a}\n\tp.x = p.x + b\n\tp.x++\n\tp.x += 100\n\treturn p.x + p.get() + p.add(b)\n",
@@ -169,6 +171,14 @@ func (c *Ctx) exploreOpt(p *Prog, st *eqStats) *gosx.Report {
 	}, "z3", 1)
 }
 
+// pairNames names the two runs a self-composition check compares.
+func (c *Ctx) pairNames() string {
+	if c.ID == "C18" {
+		return "whole program vs incremental Eval"
+	}
+	return "optimizer on vs off"
+}
+
 // compareValues asserts that two goat Values are indistinguishable: same tag, same number, same payload rendering.
 func (c *Ctx) compareValues(ex *gosx.Exec, st *eqStats, id string, a, b gosx.Value, vt interface{}) {
 	tt := ex.TT()
@@ -185,11 +195,11 @@ func (c *Ctx) compareValues(ex *gosx.Exec, st *eqStats, id string, a, b gosx.Val
 		}
 		panic(fmt.Sprintf("lift %T", v))
 	}
-	ex.Assert(tt.Eq(lift(ta, 64), lift(tb, 64)), id+"/type", fmt.Sprintf("dynamic type differs: on=%s off=%s", gosx.ShowValue(ta), gosx.ShowValue(tb)), nil)
+	ex.Assert(tt.Eq(lift(ta, 64), lift(tb, 64)), id+"/type", fmt.Sprintf("dynamic type differs between the two runs (%s): first=%s second=%s", c.pairNames(), gosx.ShowValue(ta), gosx.ShowValue(tb)), nil)
 	x, y := lift(ex.Field(a, T, "num"), gosx.SFP), lift(ex.Field(b, T, "num"), gosx.SFP)
 	bothNaN := tt.And(tt.FPred(gosx.OpFIsNaN, x), tt.FPred(gosx.OpFIsNaN, y))
 	same := tt.And(tt.FCmp(gosx.OpFEq, x, y), tt.Eq(tt.FPred(gosx.OpFIsNeg, x), tt.FPred(gosx.OpFIsNeg, y)))
-	ex.Assert(tt.Or(bothNaN, same), id+"/value", "numeric value differs between optimizer on and off", map[string]interface{}{"on": gosx.ShowValue(x), "off": gosx.ShowValue(y)})
+	ex.Assert(tt.Or(bothNaN, same), id+"/value", "numeric value differs between the two runs ("+c.pairNames()+")", map[string]interface{}{"first": gosx.ShowValue(x), "second": gosx.ShowValue(y)})
 	// payload (strings, containers): compare the String() rendering
 	sa, pa := ex.Call(ex.Func("verifValueString"), a)
 	sb, pb := ex.Call(ex.Func("verifValueString"), b)
@@ -199,7 +209,7 @@ func (c *Ctx) compareValues(ex *gosx.Exec, st *eqStats, id string, a, b gosx.Val
 		}
 		return
 	}
-	c.compareStrings(ex, st, id+"/render", "rendered value differs between optimizer on and off", sa, sb)
+	c.compareStrings(ex, st, id+"/render", "rendered value differs between the two runs ("+c.pairNames()+")", sa, sb)
 }
 
 // testTableSnippets extracts every string literal of the repository's test files (the In strings of its tables).
